@@ -11,7 +11,12 @@ from .state import St, Obl, FnCtx, CArr
 from . import api
 from . import frontends
 
-INT_CTYPES = {"int": 32, "Py_ssize_t": 64, "ssize_t": 64, "size_t": 64, "long": 64}
+INT_CTYPES = {"int": 32, "Py_ssize_t": 64, "ssize_t": 64, "long": 64}
+# unsigned C integer types: arithmetic is modulo 2**bits in C; the encoding is mathematical, so every value of such a
+# type (variables on assignment, results of + - * with an unsigned operand) carries a no-wrap obligation, and a
+# comparison of an unsigned with a signed operand obliges the signed operand to be non-negative (C converts it).
+UNSIGNED_CTYPES = {"size_t": 64, "unsigned size_t": 64, "unsigned int": 32, "unsigned long": 64, "uint32_t": 32,
+                   "uint64_t": 64, "unsigned Py_ssize_t": 64}
 
 
 def zint(v):
@@ -271,8 +276,26 @@ class Exec:
             return f(type(op).__name__, l, r)
         raise Unsupported(f"operator {type(op).__name__}")
 
+    def c_unsigned(self, n):
+        """bits if the C expression has an unsigned integer type (syntactic, from the declared C types), else 0"""
+        ct = self.cx.ex.ctypes
+        if not ct or self.cx.depth:
+            return 0
+        if isinstance(n, ast.Name):
+            return UNSIGNED_CTYPES.get(ct.get((self.cx.ex.qualname, n.id)), 0)
+        if isinstance(n, ast.BinOp) and isinstance(n.op, (ast.Add, ast.Sub, ast.Mult, ast.FloorDiv, ast.Mod)):
+            return max(self.c_unsigned(n.left), self.c_unsigned(n.right))
+        if isinstance(n, ast.UnaryOp):
+            return self.c_unsigned(n.operand)
+        return 0
+
     def e_BinOp(self, n, st, spec, b):
-        return self.arith(n.op, self.ev(n.left, st, spec, b), self.ev(n.right, st, spec, b), st, n, spec)
+        v = self.arith(n.op, self.ev(n.left, st, spec, b), self.ev(n.right, st, spec, b), st, n, spec)
+        if not spec and self.cx.c.c_int_bits and is_z3(v) and z3.is_int(v):
+            bits = self.c_unsigned(n)
+            if bits:
+                self.oblige("c_unsigned_no_wrap", "overflow", st, z3.And(v >= 0, v < 2 ** bits), n)
+        return v
 
     def compare(self, op, x, y, st, node, spec):
         if isinstance(op, (ast.Is, ast.IsNot)):
@@ -400,6 +423,13 @@ class Exec:
 
     def e_Compare(self, n, st, spec, b):
         terms = [self.ev(n.left, st, spec, b)] + [self.ev(c, st, spec, b) for c in n.comparators]
+        if not spec and self.cx.c.c_int_bits and self.cx.ex.ctypes:
+            nodes = [n.left] + list(n.comparators)
+            for k in range(len(nodes) - 1):
+                for un, sn, sv in ((nodes[k], nodes[k + 1], terms[k + 1]), (nodes[k + 1], nodes[k], terms[k])):
+                    if self.c_unsigned(un) and not self.c_unsigned(sn) and not isinstance(sn, ast.Constant) \
+                            and is_z3(sv) and z3.is_int(sv):
+                        self.oblige("c_signed_operand_of_unsigned_compare_nonneg", "overflow", st, sv >= 0, n)
         out = [self.compare(op, x, y, st, n, spec) for op, x, y in zip(n.ops, terms, terms[1:])]
         return z3.And(*out) if len(out) > 1 else out[0]
 
